@@ -108,9 +108,16 @@ Lemma st_llist b c a p : Rst b c a ->
 Proof.
   intros (HS & (X1 & X2 & X3 & X4) & HV). destruct c as [s x]. simpl in *.
   destruct (xdb_list_frame x p) as (F1 & F2 & F3 & F4 & F5).
-  destruct (xdb_list x p) as [x' r]. simpl in *. split.
-  - split; [exact HS|split; [|exact HV]]. simpl. repeat split; congruence.
-  - unfold ORs. rewrite F5, X3. destruct (a_dr a); reflexivity.
+  destruct (xdb_list x p) as [x' r]. simpl in *.
+  destruct (a_dr a) eqn:Edr; simpl.
+  - split.
+    + split; [exact HS|split; [|exact HV]]. simpl. repeat split; congruence.
+    + unfold ORs. rewrite F5, X3. reflexivity.
+  - split.
+    + split; [apply RS_clean, HS|split].
+      * simpl. repeat split; congruence.
+      * destruct b; simpl in *; auto.
+    + unfold ORs. rewrite F5, X3. reflexivity.
 Qed.
 
 Lemma st_lset c a k v : Rst true c a ->
@@ -217,11 +224,11 @@ Proof.
   pose proof (sim_block conc abs Rst ORs false (fun o => eq_refl)
     st_sget st_sset (fun b c a H => rs_keys _ _ _ (proj1 H)) st_lget st_llist st_lset
     (fun b c a H => proj1 (proj2 (proj1 (proj2 H)))) st_begin st_commit
-    (fun c a H _ => st_rollback c a H)
+    (fun c a H _ => st_rollback c a H) (fun N => False_ind _ (Bool.diff_false_true N))
     st_starttx st_enter st_leave blk _ _ (st_init store main)) as H.
   destruct (exec_block conc (conc_init store main) blk) as [[[c' t1] rcs1] g1].
   destruct (exec_block abs (abs_init store main) blk) as [[[a' t2] rcs2] g2].
   intros E1 E2. inversion E1; subst. inversion E2; subst.
-  destruct H as (_ & H2 & H3); [intro N; discriminate N|].
+  destruct H as [_ H]. destruct H as (_ & H2 & H3); [intro N; discriminate N|].
   split; [exact H3|apply Forall2_masks, H2].
 Qed.
